@@ -3,8 +3,13 @@
 package main
 
 import (
+	"bufio"
+	"bytes"
+	"encoding/json"
 	"fmt"
+	"io"
 	"os"
+	"os/exec"
 	"path/filepath"
 	"regexp"
 	"runtime"
@@ -46,6 +51,13 @@ func main() {
 			}
 		}
 		corr.Main(spec(), os.Args[2:])
+	case "worker":
+		restoreOrigClock = snowflake.VerifSetNow(time.Now)
+		restoreOrigClock()
+		if len(os.Args) > 2 {
+			oraclePath = os.Args[2]
+		}
+		workerLoop()
 	default:
 		os.Exit(2)
 	}
@@ -1420,7 +1432,8 @@ func (w *world) monoOracle(node int64, ids []int64) string {
 	return outs[1]
 }
 
-func runOnce(c corr.Case) corr.Result {
+// runLocal runs one script in this process.
+func runLocal(c corr.Case) corr.Result {
 	restoreOrigClock() // the package's own default clock
 	w := &world{}
 	defer w.close()
@@ -1430,6 +1443,140 @@ func runOnce(c corr.Case) corr.Result {
 	}
 	res.Hits = w.hits
 	return res
+}
+
+// ---- the code under test runs in a worker process: a Go *fatal error* (unlock of an unlocked mutex, concurrent map
+// write, all goroutines asleep) or a hang cannot be recovered in-process, and the harness itself must never die. The
+// parent sends one script per line (JSON), the worker answers with outputs and monitor hits; when the worker dies or
+// does not answer in time the script gets the hit `…:fatal-error` / `…:hang`, and a fresh worker is started.
+
+type wireCase struct {
+	Lines []string `json:"lines"`
+}
+type wireResult struct {
+	Outs []string   `json:"outs"`
+	Hits []corr.Hit `json:"hits"`
+}
+
+func workerLoop() {
+	in := bufio.NewReaderSize(os.Stdin, 1<<20)
+	out := bufio.NewWriter(os.Stdout)
+	for {
+		line, err := in.ReadBytes('\n')
+		if len(line) > 0 {
+			var c wireCase
+			if json.Unmarshal(line, &c) == nil {
+				r := runLocal(corr.Case{Lines: c.Lines})
+				b, _ := json.Marshal(wireResult{Outs: r.Outs, Hits: r.Hits})
+				out.Write(b)
+				out.WriteByte('\n')
+				out.Flush()
+			}
+		}
+		if err != nil {
+			return
+		}
+	}
+}
+
+type workerProc struct {
+	cmd    *exec.Cmd
+	in     io.WriteCloser
+	out    *bufio.Reader
+	stderr *bytes.Buffer
+}
+
+var theWorker *workerProc
+
+func startWorker() *workerProc {
+	exe, err := os.Executable()
+	if err != nil {
+		return nil
+	}
+	cmd := exec.Command(exe, "worker", oraclePath)
+	in, err1 := cmd.StdinPipe()
+	outp, err2 := cmd.StdoutPipe()
+	eb := &bytes.Buffer{}
+	cmd.Stderr = eb
+	if err1 != nil || err2 != nil || cmd.Start() != nil {
+		return nil
+	}
+	return &workerProc{cmd: cmd, in: in, out: bufio.NewReaderSize(outp, 1<<20), stderr: eb}
+}
+
+// siteOf names the generator a script mainly exercises (for the key of a fatal error / hang).
+func siteOf(lines []string) string {
+	site := "generator"
+	for _, l := range lines {
+		f := strings.Fields(l)
+		if len(f) == 0 {
+			continue
+		}
+		switch f[0] {
+		case "mono":
+			return "MonoNode.Generate"
+		case "g", "burst", "par", "hheld", "hstress", "hreal", "hard":
+			site = "HardNode.Generate"
+		case "n", "nburst", "npar", "nheld", "nstress", "gid", "gidpar", "nano", "nanonl":
+			if site == "generator" {
+				site = "UnixNanoID.GenIDByTS"
+			}
+		}
+	}
+	return site
+}
+
+func runOnce(c corr.Case) corr.Result {
+	if theWorker == nil {
+		theWorker = startWorker()
+	}
+	w := theWorker
+	if w == nil {
+		return runLocal(c) // no child process can be started on this host: in-process (no protection against fatal errors)
+	}
+	b, _ := json.Marshal(wireCase{Lines: c.Lines})
+	type answer struct {
+		line []byte
+		err  error
+	}
+	ch := make(chan answer, 1)
+	go func() {
+		if _, err := w.in.Write(append(b, '\n')); err != nil {
+			ch <- answer{nil, err}
+			return
+		}
+		line, err := w.out.ReadBytes('\n')
+		ch <- answer{line, err}
+	}()
+	fail := func(what, detail string) corr.Result {
+		_ = w.cmd.Process.Kill()
+		_ = w.cmd.Wait()
+		theWorker = nil
+		var res corr.Result
+		for range c.Lines {
+			res.Outs = append(res.Outs, what)
+		}
+		res.Hits = []corr.Hit{{Key: "C06:" + siteOf(c.Lines) + ":" + what, What: "the process running this script " + detail}}
+		return res
+	}
+	select {
+	case a := <-ch:
+		var r wireResult
+		if a.err == nil && json.Unmarshal(a.line, &r) == nil && len(r.Outs) == len(c.Lines) {
+			return corr.Result{Outs: r.Outs, Hits: r.Hits}
+		}
+		time.Sleep(50 * time.Millisecond) // let the runtime finish writing its report
+		msg := strings.TrimSpace(w.stderr.String())
+		if i := strings.Index(msg, "\n"); i > 0 {
+			msg = msg[:i]
+		}
+		if len(msg) > 200 {
+			msg = msg[:200]
+		}
+		return fail("fatal-error", "died: "+msg)
+	case <-time.After(150 * time.Second):
+		return fail("hang", "did not finish within 150 s")
+	}
 }
 
 // runCase: a monitor hit is reported as a concrete replay only after the same script, run again on its own from the
